@@ -315,6 +315,11 @@ where
             }
         }
         ensure!(ad.is_exhausted(), "adaptor not exhausted after its source ended");
+        // pulled past the end, the source yields equilibrium frames; each still reaches the detector (the envelope decays, it does not jump)
+        for j in 0..5 {
+            let (g, e) = (ad.next(), det.next(F::EQUILIBRIUM));
+            ensure!(g == e, "{} frames past the end of the source: detect_envelope yields {:?}, the detector fed the same (equilibrium) frames {:?}", j + 1, g, e);
+        }
         st.class("detect_envelope adaptor");
     }
     st.nt(release_path || zero_tc || changed || matches!(ik, Kind::Int { signed: false, .. }) || chans > 1);
